@@ -57,7 +57,23 @@ pub fn run(cfg: &Cfg, rep: &mut Report) {
     let nmsg = cfg.n(3, 12, 25) as usize;
     run_cases(cfg, "capacity", ntrees, rep, |rng, ctx| {
         let (specs, nh) = TreeGen::generate(rng, true);
-        let scripts = framing_scripts(rng, nh, false);
+        let mut scripts = framing_scripts(rng, nh, false);
+        // the oracle here is differential (fixed-capacity against growable), so it also holds for answers whose framing
+        // C10 leaves open: queries that write no data at all (header only, or nothing) and data whose text is empty
+        for s in scripts.iter_mut() {
+            match rng.usize(16) {
+                0 => s.emit.clear(),
+                1 => {
+                    s.emit.clear();
+                    s.headers.clear();
+                }
+                2 => {
+                    let at = rng.usize(s.emit.len() + 1);
+                    s.emit.insert(at, Val::Chr(b""));
+                }
+                _ => {}
+            }
+        }
         let built: Built<Dev, Script> = Built::new(&specs, scripts.clone());
         let rt = RTree::from_specs(&specs);
         let mut dev = Dev::new();
